@@ -49,6 +49,13 @@ func gen(tier string, seed int64) []hx.Scenario {
 			}
 		}
 		if k <= 4 {
+			for p := 0; p < k; p++ {
+				for q := p + 1; q < k; q++ {
+					out = append(out, hx.Scenario{Name: "pair-forger-challenge-pair", Cfg: fmt.Sprintf("k=%d rho=%d,%d", k, p, q), Run: func(x *hx.Ctx) { forgerChallengePair(x, k, p, q) }})
+				}
+			}
+		}
+		if k <= 4 {
 			for j := 0; j < k; j++ {
 				out = append(out, hx.Scenario{Name: "pair-forger-scaled-slot", Cfg: fmt.Sprintf("k=%d slot=%d", k, j), Run: func(x *hx.Ctx) { forgerScaledSlot(x, k, j) }})
 			}
@@ -255,6 +262,114 @@ type rewriteCtx struct {
 func (r *rewriteCtx) Put(msg any) error {
 	r.edit(msg)
 	return r.ProverContext.Put(msg)
+}
+
+// forgerChallengePair: a cheating prover that follows the protocol for an honest shuffle (rotation by one) except that it
+// commits to the same u for the indices p and q and shifts Lambda1/Lambda2 by w_i * d_i, where d moves a plaintext amount
+// D from the output slot holding input q to the one holding input p (a zero-sum perturbation: the claimed output is not a
+// re-encryption of a permutation of the input). Equations (31)/(32) then pick up the term (rho_p - rho_q) * D, which the
+// prover cannot know when it sends Lambda: the forgery is accepted iff the verifier's challenges rho_p and rho_q coincide.
+// Soundness of the pair shuffle rests on the independence of the challenges: must be rejected for every pair.
+func forgerChallengePair(x *hx.Ctx, k, p, q int) {
+	pi := make([]int, k)
+	piinv := make([]int, k)
+	for i := range pi {
+		pi[i] = (i + 1) % k
+	}
+	for i := range pi {
+		piinv[pi[i]] = i
+	}
+	in := mkInst(x, k, pi)
+	s := in.s
+	G, H, X, Y, beta := in.G, in.H, in.X, in.Y, in.beta
+	D := s.Point().Mul(s.Scalar().Pick(s.RandomStream()), nil)
+	dY := make([]kyber.Point, k)
+	for i := range dY {
+		dY[i] = s.Point().Null()
+	}
+	dY[piinv[p]] = D.Clone()
+	dY[piinv[q]] = s.Point().Neg(D)
+	forger := func(ctx proof.ProverContext) error {
+		u := make([]kyber.Scalar, k)
+		w := make([]kyber.Scalar, k)
+		a := make([]kyber.Scalar, k)
+		var tau0, gamma kyber.Scalar
+		if err := ctx.PriRand(u, w, a, &tau0, &gamma); err != nil {
+			return err
+		}
+		u[q] = u[p]
+		z := s.Scalar()
+		p1 := &fEga1{Gamma: s.Point().Mul(gamma, G), A: make([]kyber.Point, k), C: make([]kyber.Point, k), U: make([]kyber.Point, k), W: make([]kyber.Point, k), Lambda1: s.Point().Null(), Lambda2: s.Point().Null()}
+		wbetasum := s.Scalar().Set(tau0)
+		for i := 0; i < k; i++ {
+			p1.A[i] = s.Point().Mul(a[i], G)
+			p1.C[i] = s.Point().Mul(s.Scalar().Mul(gamma, a[pi[i]]), G)
+			p1.U[i] = s.Point().Mul(u[i], G)
+			p1.W[i] = s.Point().Mul(s.Scalar().Mul(gamma, w[i]), G)
+			wbetasum.Add(wbetasum, s.Scalar().Mul(w[i], beta[pi[i]]))
+			wu := s.Scalar().Sub(w[piinv[i]], u[i])
+			p1.Lambda1.Add(p1.Lambda1, s.Point().Mul(wu, X[i]))
+			p1.Lambda2.Add(p1.Lambda2, s.Point().Mul(wu, Y[i]))
+			p1.Lambda2.Add(p1.Lambda2, s.Point().Mul(w[i], dY[i])) // the cheat
+		}
+		p1.Lambda1.Add(p1.Lambda1, s.Point().Mul(wbetasum, G))
+		p1.Lambda2.Add(p1.Lambda2, s.Point().Mul(wbetasum, H))
+		if err := ctx.Put(p1); err != nil {
+			return err
+		}
+		// the challenges are read into the library's own message objects (what a PairShuffle initialised by Init sees)
+		var lib shuffle.PairShuffle
+		lib.Init(s, k)
+		lv2, lv4 := lib.VerifChallengeMessages()
+		if err := ctx.PubRand(lv2); err != nil {
+			return err
+		}
+		rho := reflect.ValueOf(lv2).Elem().FieldByName("Zrho").Interface().([]kyber.Scalar)
+		b := make([]kyber.Scalar, k)
+		for i := range b {
+			b[i] = s.Scalar().Sub(rho[i], u[i])
+		}
+		p3 := &fEga3{D: make([]kyber.Point, k)}
+		for i := range b {
+			p3.D[i] = s.Point().Mul(s.Scalar().Mul(gamma, b[pi[i]]), G)
+		}
+		if err := ctx.Put(p3); err != nil {
+			return err
+		}
+		if err := ctx.PubRand(lv4); err != nil {
+			return err
+		}
+		lambda := reflect.ValueOf(lv4).Elem().FieldByName("Zlambda").Interface().(kyber.Scalar)
+		r := make([]kyber.Scalar, k)
+		for i := range r {
+			r[i] = s.Scalar().Add(a[i], z.Mul(lambda, b[i]))
+		}
+		sv := make([]kyber.Scalar, k)
+		for i := range sv {
+			sv[i] = s.Scalar().Mul(gamma, r[pi[i]])
+		}
+		p5 := &fEga5{Zsigma: make([]kyber.Scalar, k), Ztau: s.Scalar().Neg(tau0)}
+		for i := 0; i < k; i++ {
+			p5.Zsigma[i] = s.Scalar().Add(w[i], b[pi[i]])
+			p5.Ztau.Add(p5.Ztau, s.Scalar().Mul(b[i], beta[i]))
+		}
+		if err := ctx.Put(p5); err != nil {
+			return err
+		}
+		var ss shuffle.SimpleShuffle
+		ss.Init(s, k)
+		return ss.Prove(G, gamma, r, sv, s.RandomStream(), ctx)
+	}
+	// control: the same prover without the perturbation is an honest prover
+	prf, err := proof.HashProve(s, "PairShuffle", forger)
+	if !x.NoErr("HashProve (cheating prover)", err) {
+		return
+	}
+	Yb := cp(in.Ybar)
+	for i := range Yb {
+		Yb[i] = s.Point().Add(Yb[i], dY[i])
+	}
+	x.Err(fmt.Sprintf("plaintext amount moved between the outputs of inputs %d and %d, prover betting on rho_%d = rho_%d", p, q, p, q), proof.HashVerify(s, "PairShuffle", shuffle.Verifier(s, G, H, X, Y, in.Xbar, Yb), prf))
 }
 
 // forgerScaledSlot: the claimed output has slot j multiplied by a scalar c (not a re-encryption of any input) and the
